@@ -16,7 +16,7 @@
 
   Records list every world-frame / body-frame spatial attribute of the Python classes (harness ATTR_TABLE): besides what
   `translate_rotate` moves also `TrafficLight.shape`, `obstacle_shape`, `TrajectoryPrediction.shape` (body frame, unchanged) and
-  `lanelet_network.areas` borders, `DynamicObstacle.history` (world frame, left in place by the code).
+  `lanelet_network.areas` borders, `DynamicObstacle.history` (world frame, moved since the repairs 00d3698 / 6df6dd6).
 
   Reals are `Rat`.  The rotation enters as the pair `(c, s)` — the values `math.cos(a)`, `math.sin(a)` the code
   computes (transform.py:76-77) — next to the angle `a` itself, which is what is added to orientations.
@@ -285,7 +285,7 @@ def Pred.move (m : Mo) : Pred → Res Pred
 inductive Obstacle where
   | static (body : Shape) (st : State)  -- `obstacle_shape` is given in the body frame and is not moved
   /-- `history`: the past states of the obstacle (world frame, appended by `update_initial_state`);
-      `DynamicObstacle.translate_rotate` does not touch them. -/
+      `DynamicObstacle.translate_rotate` moves them after the prediction and the initial state (obstacle.py:666). -/
   | dynamic (body : Shape) (st : State) (p : Pred) (hist : List State)
   | phantom (p : Option (List Shape))
   | env (sh : Shape)                    -- EnvironmentObstacle: the shape is given in the world frame
@@ -309,7 +309,10 @@ def Obstacle.move (m : Mo) : Obstacle → Res Obstacle
       | .ok p' =>
         match State.move m st with
         | .error e => .error e
-        | .ok st' => .ok (.dynamic body st' p' hist)
+        | .ok st' =>
+          match moveStates m hist with
+          | .error e => .error e
+          | .ok hist' => .ok (.dynamic body st' p' hist')
   | .phantom none =>
     match guard m with
     | .error e => .error e
@@ -336,8 +339,8 @@ structure Scenario where
   signs : List Pt
   lights : List Light
   obstacles : List Obstacle
-  /-- `lanelet_network.areas[*].border[*].border_vertices` (world frame).  Neither `Area` nor `AreaBorder` has a
-      `translate_rotate`, and `LaneletNetwork.translate_rotate` does not touch them. -/
+  /-- `lanelet_network.areas[*].border[*].border_vertices` (world frame): `LaneletNetwork.translate_rotate` calls
+      `Area.translate_rotate` → `AreaBorder.translate_rotate` (plain `transform.translate_rotate`, no further assertion). -/
   areas : List (List (List Pt))
   deriving Repr
 
@@ -358,7 +361,7 @@ def Scenario.move (m : Mo) (sc : Scenario) : Res Scenario :=
         | .ok lt =>
           match mapR (Obstacle.move m) sc.obstacles with
           | .error e => .error e
-          | .ok obs => .ok ⟨ls, sg, lt, obs, sc.areas⟩
+          | .ok obs => .ok ⟨ls, sg, lt, obs, sc.areas.map (List.map (List.map m.mv))⟩
 
 structure Problem where
   init : State
